@@ -87,7 +87,7 @@ exactly when the real code is deadlocked (or waits for a timer beyond this horiz
 MAX_ITERATIONS = 2_000_000
 """Event loop iterations allowed per call (livelock guard)."""
 
-WALL_TIMEOUT = 30.0
+WALL_TIMEOUT = 120.0
 """Real seconds allowed per call."""
 
 SQL_VM_STEPS = 50_000_000
